@@ -66,6 +66,7 @@ enum { ST_NEW = 0, ST_RUNNABLE, ST_BLOCKED, ST_FINISHED };
 struct Th {
     pthread_t th; std::atomic<int> go{ 0 }; int state = ST_NEW;
     uintptr_t stack_lo = 0, stack_hi = 0; const void *blocked_on = nullptr;
+    uintptr_t own_hi = 0;       // accesses in [stack_lo, own_hi) are the thread's own frames and are not events; above lie the caller of the thread function and the thread-local block, whose addresses can escape to other threads
     jmp_buf abort_jmp; bool abort_armed = false; bool aborted = false;
     long prio = 0; uintptr_t frames[8]; int depth = 0;
 };
@@ -151,7 +152,7 @@ static std::string describe(uintptr_t a) {
     if (__start_eavbss && a >= (uintptr_t)__start_eavbss && a < (uintptr_t)__stop_eavbss) { snprintf(b, sizeof b, "libeav static storage (.bss +%zu)", (size_t)(a - (uintptr_t)__start_eavbss)); return b; }
     for (auto &n : g_named) if (a >= n.lo && a < n.hi) { snprintf(b, sizeof b, "%s +%zu", n.name.c_str(), (size_t)(a - n.lo)); return b; }
     for (auto &k : g_blocks) if (a >= k.lo && a < k.lo + k.n) { snprintf(b, sizeof b, "heap block #%llu (%zu bytes, allocated by thread %d) +%zu", (unsigned long long)k.id, k.n, k.tid, (size_t)(a - k.lo)); return b; }
-    for (int t = 0; t < MAXT; t++) if (TH[t].stack_lo && a >= TH[t].stack_lo && a < TH[t].stack_hi) { snprintf(b, sizeof b, "stack of thread %d", t); return b; }
+    for (int t = 0; t < MAXT; t++) if (TH[t].stack_lo && a >= TH[t].stack_lo && a < TH[t].stack_hi) { snprintf(b, sizeof b, a >= TH[t].own_hi ? "thread-local storage (or start frame) of thread %d" : "stack of thread %d", t); return b; }
     Dl_info di;
     if (dladdr((void *)a, &di) && di.dli_sname) { snprintf(b, sizeof b, "global %s +%zu", di.dli_sname, (size_t)(a - (uintptr_t)di.dli_saddr)); return b; }
     return "memory outside any known block";
@@ -286,6 +287,19 @@ static void block_on(const void *obj) {
 static void unblock_waiters(const void *obj) {
     for (int i = 0; i < g_nthreads; i++) if (TH[i].state == ST_BLOCKED && TH[i].blocked_on == obj) { TH[i].state = ST_RUNNABLE; TH[i].blocked_on = nullptr; }
 }
+// harness-level "this is done, you may take the object" flag: a release by the poster, an acquire by whoever waited
+void post(const void *k) {
+    if (g_mode != 2 || t_tid < 0) return;
+    RtGuard rg_;
+    SyncObj &s = sync_obj(k); s.once_state = 2; vc_join(s.vc, VC[t_tid]); VC[t_tid][t_tid]++;
+    unblock_waiters(k);
+}
+void wait(const void *k) {
+    if (g_mode != 2 || t_tid < 0) return;
+    RtGuard rg_;
+    while (sync_obj(k).once_state != 2) { block_on(k); if (g_stop_all) return; }
+    vc_join(VC[t_tid], sync_obj(k).vc);
+}
 
 // A read that repeats the previous event of the same thread exactly (same bytes, same site, nothing in between - not
 // even a scheduling point of another thread) adds nothing: the detector's state and the set of reachable schedules
@@ -312,7 +326,7 @@ static void on_access(uintptr_t a, size_t n, bool is_write, uintptr_t pc_abs) {
     if (!active()) return;
     RtGuard rg_;
     Th &me = TH[t_tid];
-    if (a >= me.stack_lo && a < me.stack_hi) return;        // own stack
+    if (a >= me.stack_lo && a < me.own_hi) return;          // own stack frames
     if (is_readonly(a)) return;
     if (repeat_read(a, n, is_write, pc_abs)) return;
     if (g_mode == 1) { g_seq_steps++; note_event(a, n, is_write, pc_abs); return; }
@@ -330,7 +344,7 @@ static void on_range(const void *p, size_t n, bool is_write, uintptr_t pc_abs) {
     RtGuard rg_;
     uintptr_t a = (uintptr_t)p;
     Th &me = TH[t_tid];
-    if (a >= me.stack_lo && a < me.stack_hi) return;
+    if (a >= me.stack_lo && a < me.own_hi) return;
     if (is_readonly(a)) return;
     if (repeat_read(a, n, is_write, pc_abs)) return;
     if (g_mode == 1) { g_seq_steps++; note_event(a, n, is_write, pc_abs); return; }
@@ -371,10 +385,18 @@ static void *thread_main(void *p) {
     pthread_attr_t at; void *sa = nullptr; size_t ss = 0;
     if (pthread_getattr_np(pthread_self(), &at) == 0) { pthread_attr_getstack(&at, &sa, &ss); pthread_attr_destroy(&at); }
     TH[tid].stack_lo = (uintptr_t)sa; TH[tid].stack_hi = (uintptr_t)sa + ss;
+    TH[tid].own_hi = (uintptr_t)__builtin_frame_address(0);
+    if (TH[tid].own_hi < TH[tid].stack_lo || TH[tid].own_hi > TH[tid].stack_hi) TH[tid].own_hi = TH[tid].stack_hi;
     wait_on(&TH[tid].go, 0);            // start barrier: first release comes from the scheduler
     TH[tid].abort_armed = true;
-    if (setjmp(TH[tid].abort_jmp) == 0) g_fn(tid, g_arg);
-    else { t_in_sut = 0; t_in_rt = 0; if (g_abort_hook) g_abort_hook(tid, g_arg); }
+    // abort()/assert inside the library ends the call (and, for the harness, the program it belongs to); the thread then
+    // goes on with whatever else it has to do - other threads may be waiting for it to hand objects on
+    volatile bool again;
+    do {
+        int jc = setjmp(TH[tid].abort_jmp);
+        if (jc == 0) { g_fn(tid, g_arg); again = false; }
+        else { t_in_sut = 0; t_in_rt = 0; if (g_abort_hook) g_abort_hook(tid, g_arg); again = jc != 9 && !g_stop_all; }
+    } while (again);
     TH[tid].abort_armed = false;
     t_in_sut = 0;
     TH[tid].state = ST_FINISHED;
@@ -482,7 +504,7 @@ static Result g_seq_dummy;
 void begin_sequential() {
     t_tid = MAIN_TID; g_mode = 1; g_seq_steps = 0; t_in_sut = 0;
     pthread_attr_t at; void *sa = nullptr; size_t ss = 0;
-    if (!TH[MAIN_TID].stack_lo && pthread_getattr_np(pthread_self(), &at) == 0) { pthread_attr_getstack(&at, &sa, &ss); pthread_attr_destroy(&at); TH[MAIN_TID].stack_lo = (uintptr_t)sa; TH[MAIN_TID].stack_hi = (uintptr_t)sa + ss; }
+    if (!TH[MAIN_TID].stack_lo && pthread_getattr_np(pthread_self(), &at) == 0) { pthread_attr_getstack(&at, &sa, &ss); pthread_attr_destroy(&at); TH[MAIN_TID].stack_lo = (uintptr_t)sa; TH[MAIN_TID].stack_hi = (uintptr_t)sa + ss; TH[MAIN_TID].own_hi = TH[MAIN_TID].stack_hi; }
 }
 uint64_t end_sequential() { g_mode = 0; t_tid = -1; t_in_sut = 0; return g_seq_steps; }
 
@@ -494,14 +516,45 @@ size_t library_writable_bytes() {
     if (__start_eavbss) n += (size_t)(__stop_eavbss - __start_eavbss);
     return n;
 }
+// ---- process lifetime.  The library objects' constructor / destructor tables are renamed at build time (eavinit / eavfini),
+// so the loader runs neither.  reset_library_globals() is "a new process": link-time image of the writable statics, then the
+// constructors; run_library_exit() is what exit() does: atexit()/on_exit() handlers registered by the library, newest first,
+// then the destructors.  Blocks the constructors allocated belong to the simulated process and go with it.
+typedef void (*init_fn)(int, char **, char **);
+typedef void (*fini_fn)(void);
+extern "C" { extern init_fn __start_eavinit[] __attribute__((weak)); extern init_fn __stop_eavinit[] __attribute__((weak));
+             extern fini_fn __start_eavfini[] __attribute__((weak)); extern fini_fn __stop_eavfini[] __attribute__((weak)); }
+struct ExitHandler { void (*f0)(void); void (*f1)(int, void *); void *arg; };
+static std::vector<ExitHandler> g_atexit;
+static std::vector<void *> g_ctor_blocks; static bool g_in_ctor = false;
+static std::vector<char> g_image_data, g_image_bss;     // what the statics look like when main() would start
+static void ctor_block_add(void *p) { if (g_in_ctor && p) g_ctor_blocks.push_back(p); }
+static void ctor_block_del(void *p) { if (g_ctor_blocks.empty() || !p) return; for (size_t i = 0; i < g_ctor_blocks.size(); i++) if (g_ctor_blocks[i] == p) { g_ctor_blocks.erase(g_ctor_blocks.begin() + (long)i); return; } }
+size_t library_constructors() { return __start_eavinit ? (size_t)(__stop_eavinit - __start_eavinit) : 0; }
+size_t library_exit_handlers() { return g_atexit.size() + (__start_eavfini ? (size_t)(__stop_eavfini - __start_eavfini) : 0); }
 void reset_library_globals() {
     g_sync.clear();         // pthread_once / mutex state lives with the statics it guards
     if (__start_eavdata && !g_pristine.empty()) __real_memcpy(__start_eavdata, g_pristine.data(), g_pristine.size());
     if (__start_eavbss) __real_memset(__start_eavbss, 0, (size_t)(__stop_eavbss - __start_eavbss));
+    g_atexit.clear();
+    { std::vector<void *> old; old.swap(g_ctor_blocks); for (void *p : old) __real_free(p); }
+    if (__start_eavinit && __stop_eavinit > __start_eavinit) {
+        int keep_sut = t_in_sut; t_in_sut = 0; g_in_ctor = true;
+        for (init_fn *f = __start_eavinit; f < __stop_eavinit; f++) if (*f) (*f)(0, nullptr, environ);
+        g_in_ctor = false; t_in_sut = keep_sut;
+    }
+    if (__start_eavdata) g_image_data.assign(__start_eavdata, __stop_eavdata);
+    if (__start_eavbss) g_image_bss.assign(__start_eavbss, __stop_eavbss);
+}
+size_t run_library_exit() {
+    size_t n = 0;
+    while (!g_atexit.empty()) { ExitHandler h = g_atexit.back(); g_atexit.pop_back(); n++; if (h.f0) h.f0(); else if (h.f1) h.f1(0, h.arg); }
+    if (__start_eavfini) for (fini_fn *f = __stop_eavfini; f > __start_eavfini; ) { --f; if (*f) { n++; (*f)(); } }
+    return n;
 }
 bool library_globals_dirty() {
-    if (__start_eavdata && !g_pristine.empty() && __real_memcmp(__start_eavdata, g_pristine.data(), g_pristine.size())) return true;
-    if (__start_eavbss) for (char *p = __start_eavbss; p < __stop_eavbss; p++) if (*p) return true;
+    if (__start_eavdata && g_image_data.size() == (size_t)(__stop_eavdata - __start_eavdata) && __real_memcmp(__start_eavdata, g_image_data.data(), g_image_data.size())) return true;
+    if (__start_eavbss && g_image_bss.size() == (size_t)(__stop_eavbss - __start_eavbss) && __real_memcmp(__start_eavbss, g_image_bss.data(), g_image_bss.size())) return true;
     return false;
 }
 
@@ -616,9 +669,9 @@ static bool alloc_fails() {
     if (++t_af_n == t_af_at) { t_af_fired = true; return true; }
     return false;
 }
-void *__wrap_malloc(size_t n) { on_plain_point(PC); if (alloc_fails()) { errno = ENOMEM; return nullptr; } void *p = __real_malloc(n); block_add(p, n); return p; }
-void *__wrap_calloc(size_t a, size_t b) { on_plain_point(PC); if (alloc_fails()) { errno = ENOMEM; return nullptr; } void *p = __real_calloc(a, b); block_add(p, a * b); return p; }
-void *__wrap_realloc(void *o, size_t n) { on_plain_point(PC); block_del(o); void *p = __real_realloc(o, n); block_add(p, n); return p; }
+void *__wrap_malloc(size_t n) { on_plain_point(PC); if (alloc_fails()) { errno = ENOMEM; return nullptr; } void *p = __real_malloc(n); ctor_block_add(p); block_add(p, n); return p; }
+void *__wrap_calloc(size_t a, size_t b) { on_plain_point(PC); if (alloc_fails()) { errno = ENOMEM; return nullptr; } void *p = __real_calloc(a, b); ctor_block_add(p); block_add(p, a * b); return p; }
+void *__wrap_realloc(void *o, size_t n) { on_plain_point(PC); block_del(o); ctor_block_del(o); void *p = __real_realloc(o, n); ctor_block_add(p); block_add(p, n); return p; }
 // a pointer into a thread's stack or thread-local block handed to free(): glibc would abort the process; report it instead
 static bool bad_free(void *p) {
     if (!p || !active() || g_mode != 2 || !g_res) return false;
@@ -628,8 +681,8 @@ static bool bad_free(void *p) {
     if (g_res->bad_free.empty()) g_res->bad_free = "thread " + std::to_string(t_tid) + " passes to free() a pointer into the stack / thread-local storage of " + (o == MAIN_TID ? std::string("the main thread") : "thread " + std::to_string(o));
     return true;
 }
-void __wrap_free(void *p) { on_plain_point(PC); if (bad_free(p)) return; block_del(p); __real_free(p); }
-char *__wrap_strdup(const char *s) { size_t n = __real_strlen(s) + 1; on_range(s, n, false, PC); char *p = __real_strdup(s); block_add(p, n); return p; }
+void __wrap_free(void *p) { on_plain_point(PC); if (bad_free(p)) return; block_del(p); ctor_block_del(p); __real_free(p); }
+char *__wrap_strdup(const char *s) { size_t n = __real_strlen(s) + 1; on_range(s, n, false, PC); char *p = __real_strdup(s); ctor_block_add(p); block_add(p, n); return p; }
 char *__wrap_strndup(const char *s, size_t n) { char *p = __real_strndup(s, n); if (p) { size_t l = __real_strlen(p) + 1; on_range(s, l - 1 < n ? l : n, false, PC); block_add(p, l); } return p; }
 
 // the IDN converter: real, uninstrumented, one atomic step between two scheduling points
@@ -699,6 +752,10 @@ int __wrap_sched_yield(void) {
 }
 
 // abort / assert inside a simulated thread: stop that thread, keep the simulation alive
+// exit handlers registered by library code (from a constructor or from a call) are kept by the simulated process
+int __real_atexit(void (*)(void)); int __real_on_exit(void (*)(int, void *), void *);
+int __wrap_atexit(void (*f)(void)) { if (g_in_ctor || t_in_sut > 0) { RtGuard rg_; g_atexit.push_back(ExitHandler{ f, nullptr, nullptr }); return 0; } return __real_atexit(f); }
+int __wrap_on_exit(void (*f)(int, void *), void *a) { if (g_in_ctor || t_in_sut > 0) { RtGuard rg_; g_atexit.push_back(ExitHandler{ nullptr, f, a }); return 0; } return __real_on_exit(f, a); }
 void __wrap_abort(void) {
     if (t_tid >= 0 && t_tid < MAXT && TH[t_tid].abort_armed) { TH[t_tid].aborted = true; longjmp(TH[t_tid].abort_jmp, 1); }
     fprintf(stderr, "abort() outside a simulated thread\n"); _Exit(70);
